@@ -323,6 +323,7 @@ Definition http_summaries : list (list string) :=
      "if !protocol.IsValidTopicName(topicName) => 400"; "call protocol.IsValidTopicName"; "call AddRegistration"];
     (* doDeleteTopic *)
     ["call http_api.NewReqParams"; "if err != nil => 400"; "call Get"; "if err != nil => 400";
+     "if !protocol.IsValidTopicName(topicName) => 400"; "call protocol.IsValidTopicName";
      "call FindRegistrations"; "call RemoveRegistration"; "call FindRegistrations"; "call RemoveRegistration"];
     (* doCreateChannel *)
     ["call http_api.NewReqParams"; "if err != nil => 400"; "call http_api.GetTopicChannelArgs"; "if err != nil => 400";
@@ -332,6 +333,7 @@ Definition http_summaries : list (list string) :=
      "call FindRegistrations"; "if len(registrations) == 0 => 404"; "call RemoveRegistration"];
     (* doTombstoneTopicProducer *)
     ["call http_api.NewReqParams"; "if err != nil => 400"; "call Get"; "if err != nil => 400";
+     "if !protocol.IsValidTopicName(topicName) => 400"; "call protocol.IsValidTopicName";
      "call Get"; "if err != nil => 400"; "call FindProducers"; "call Tombstone"];
     (* doLookup *)
     ["call http_api.NewReqParams"; "if err != nil => 400"; "call Get"; "if err != nil => 400";
